@@ -1,5 +1,6 @@
 """Statement execution, loops, contract calls, and the per-contract driver."""
 import ast
+import os
 import z3
 
 from . import ty as T
@@ -657,6 +658,10 @@ class Exec(ExprMixin, CallMixin):
         c = self.truthy(self.ev(s.test, st), st)
         out = Out()
         self.take_exits(out)
+        if os.environ.get('PYVC_DEBUG'):
+            import sys as _s
+            _s.stderr.write('DEBUG if line %s: %s | infeasible+ %s infeasible- %s\n' % (s.lineno, str(z3.simplify(c))[:300].replace('\n', ' '),
+                            self.infeasible(st, c), self.infeasible(st, z3.Not(c))))
         if z3.is_false(z3.simplify(c)):
             o2 = self.block(s.orelse, st)
             out.absorb(o2)
@@ -695,7 +700,17 @@ class Exec(ExprMixin, CallMixin):
             if not z3.is_quantifier(h):
                 sv.add(h)
         sv.add(cond)
-        return sv.check() == z3.unsat
+        r = sv.check() == z3.unsat
+        if r and os.environ.get('PYVC_DEBUG') == '2':
+            import sys as _s
+            cs = z3.Solver(); cs.set('unsat_core', True)
+            hs = [h for h in st.pc if not z3.is_quantifier(h)] + [cond]
+            for i, h in enumerate(hs):
+                cs.assert_and_track(h, 'q%d' % i)
+            cs.check()
+            for cc in cs.unsat_core():
+                _s.stderr.write('   CORE %s\n' % str(hs[int(str(cc)[1:])])[:300].replace('\n', ' '))
+        return r
 
     def st_With(self, s, st):
         """`with EXPR as NAME: body` for context managers whose __exit__ neither swallows exceptions nor has modelled
@@ -998,6 +1013,24 @@ class Exec(ExprMixin, CallMixin):
         names = self.assigned_names(body_nodes) | set(lc.havoc_extra)
         names -= set(lc.keep)
         hkeys, al, ad = self.touched_heap(body_nodes, st)
+        hook = getattr(self, '_hook_callee', None)
+        self._hook_callee = None
+        if hook is not None:
+            # iterator protocol: the effects of the __next__ contract (called at the head of every iteration) belong to the loop
+            for m in hook.modifies:
+                if m.field.startswith('list'):
+                    al = True
+                elif m.field.startswith('dict'):
+                    ad = True
+                else:
+                    for fid in self.safe_fids(m.field):
+                        hkeys.add(('f', fid))
+                        if self.has_live(('has', fid), st):
+                            hkeys.add(('has', fid))
+            if hook.allocates:
+                hkeys.add(('alloc',))
+            for gname in getattr(hook, 'ghost_sets', {}):
+                hkeys.add(('g', gname, self.eng.ptype(self.eng.prop.ghosts[gname])))
         head = st.copy()
         pre = self.havoc(head, names | self.hidden_names(ordn), hkeys, al, ad, lc)
         self.loop_frame_assume(head, pre, lc)
@@ -1038,6 +1071,13 @@ class Exec(ExprMixin, CallMixin):
                 o.add(s.hyps(), z3.And(m1 < meas0, meas0 >= 0) if False else z3.And(meas0 > m1, meas0 >= 0), how)
         # 5. after the loop
         normals = list(ob.brks)
+        if os.environ.get('PYVC_DEBUG'):
+            import sys as _s
+            for b in ob.brks:
+                sv = z3.Solver(); sv.set('timeout', 10000)
+                for h in b.hyps(): sv.add(h)
+                _s.stderr.write('DEBUG loop%d break state: %s\n' % (ordn, sv.check()))
+            _s.stderr.write('DEBUG loop%d: %d breaks, %d normals\n' % (ordn, len(ob.brks), len(ob.normals)))
         if exit_st is not None:
             if node.orelse:
                 oe = self.block(node.orelse, exit_st)
@@ -1217,6 +1257,7 @@ class Exec(ExprMixin, CallMixin):
             self._body_prep = prep
             return z3.Not(c_stop)
 
+        self._hook_callee = nx
         return self.run_loop(s, st, lambda st0: envf, cond, lambda cur: None, ordn, lc)
 
     def for_string(self, s, st, src, ordn, lc, idx, iname, enum):
